@@ -299,10 +299,14 @@ def keepalive(rng):
     plan = []
     for j in range(k):
         steps.append({'op': 'connect', 'peer': j})
-        mode = rng.choice(['silent', 'silent_after_hs', 'ka_only', 'live', 'live_then_silent', 'edge'])
+        mode = rng.choice(['silent', 'silent_after_hs', 'ka_only', 'live', 'live_then_silent', 'edge', 'fetching_silent', 'fetching_ka'])
         plan.append(mode)
         if mode != 'silent':
             steps.append(send(j, hs()))
+        if mode.startswith('fetching'):
+            # falls silent (or sends nothing but keep-alives) while a piece is being fetched from it:
+            # the connection must be dropped all the same and the reservation released
+            steps += [send(j, bf({0, 1})), send(j, fr('Unchoke'))]
     # timeline in multiples of a quarter interval
     t = 0
     q = KA // 4
@@ -314,7 +318,7 @@ def keepalive(rng):
         t += dt
         for j in range(k):
             m = plan[j]
-            if m == 'ka_only' and rng.random() < 0.8:
+            if m in ('ka_only', 'fetching_ka') and rng.random() < 0.8:
                 steps.append(send(j, fr('KeepAlive')))
             if m == 'live' or (m == 'live_then_silent' and t < horizon // 2) or (m == 'edge' and rng.random() < 0.5):
                 kd = rng.choice(live_kinds)
@@ -767,6 +771,62 @@ def dupaddr(rng):
                   {'op': 'serve', 'peer': 1, 'mode': 'good'}, {'op': 'advance', 'ms': 50}]
     steps += [{'op': 'connect', 'peer': 2}, send(2, hs(), bf(range(n))), send(2, fr('Unchoke')), {'op': 'advance', 'ms': 25000, 'slice': 1000}]
     sc = base(gname, [a, b, c], steps, [{'k': 'peers', 'peers': [0] if first_out else []}], pat=rng.randrange(251))
+    sc['family'] = 'honest'
+    sc['essential'] = [2]
+    sc['variant'] = variant
+    return sc
+
+
+def endgame_cancel(rng):
+    """C10/C12/C02: end game, two peers fetch the same piece; the second one delivers it first, so the first
+    one's task cancels its requests and the manager hands it the next piece in the same step.  The new
+    assignment must be requested, tiled and completed like any other."""
+    gname = rng.choice(['g4', 'g3', 'g2', 'g12'])
+    pl, files, n, plens = geo(gname)
+    x = rng.randrange(n)
+    a = peer(0, set(range(n)), serve='none')
+    b = peer(1, {x}, serve='none', lifo=rng.random() < 0.5)
+    steps = [{'op': 'connect', 'peer': 0}, send(0, hs(), bf({x})), send(0, fr('Unchoke'))]
+    # the first peer turns out to hold more pieces while x is in flight
+    more = [p for p in range(n) if p != x]
+    rng.shuffle(more)
+    if more:
+        steps.append(send(0, *[fr('Have', p) for p in more[:rng.randint(1, len(more))]]))
+    steps += [{'op': 'connect', 'peer': 1}, send(1, hs(), bf({x})), send(1, fr('Unchoke'))]
+    if rng.random() < 0.3:
+        steps += [send(0, fr('Choke')), send(0, fr('Unchoke'))]
+    steps += [{'op': 'serve', 'peer': 1, 'mode': 'good'}, {'op': 'advance', 'ms': rng.choice([5, 200])}]
+    # the first peer now serves whatever it is asked for; a third peer makes the swarm honest
+    c = peer(2, set(range(n)), serve='good')
+    steps += [{'op': 'serve', 'peer': 0, 'mode': 'good'}, {'op': 'advance', 'ms': 300},
+              {'op': 'connect', 'peer': 2}, send(2, hs(), bf(range(n))), send(2, fr('Unchoke')), {'op': 'advance', 'ms': 25000, 'slice': 1000}]
+    sc = base(gname, [a, b, c], steps, [{'k': 'peers', 'peers': []}], pat=rng.randrange(251))
+    sc['family'] = 'honest'
+    sc['essential'] = [2]
+    return sc
+
+
+def nothing_to_assign(rng):
+    """C12/C02: a peer that was asked for a piece chokes us, the piece goes to somebody else, and when the first
+    peer unchokes us again there is nothing to ask it for (the piece is reserved outside end game, or the peer
+    withdrew its pieces).  When the other peer then completes the piece, the first task must not cancel it."""
+    variant = rng.choice(['reserved', 'withdrawn'])
+    gname = 'g12' if variant == 'reserved' else rng.choice(['g4', 'g2', 'g12'])
+    pl, files, n, plens = geo(gname)
+    x = rng.randrange(n)
+    a = peer(0, {x}, serve='none')
+    b = peer(1, {x}, serve='none')
+    c = peer(2, set(range(n)), serve='good')
+    steps = [{'op': 'connect', 'peer': 0}, send(0, hs(), bf({x})), send(0, fr('Unchoke'))]
+    if variant == 'withdrawn':
+        steps.append(send(0, bf(set())))
+    steps += [send(0, fr('Choke')), {'op': 'connect', 'peer': 1}, send(1, hs(), bf({x})), send(1, fr('Unchoke')),
+              send(0, fr('Unchoke'))]
+    if rng.random() < 0.4:
+        steps += [send(0, fr('Choke')), send(0, fr('Unchoke'))]
+    steps += [{'op': 'serve', 'peer': 1, 'mode': 'good'}, {'op': 'advance', 'ms': rng.choice([5, 300])},
+              {'op': 'connect', 'peer': 2}, send(2, hs(), bf(range(n))), send(2, fr('Unchoke')), {'op': 'advance', 'ms': 25000, 'slice': 1000}]
+    sc = base(gname, [a, b, c], steps, [{'k': 'peers', 'peers': []}], pat=rng.randrange(251))
     sc['family'] = 'honest'
     sc['essential'] = [2]
     sc['variant'] = variant
